@@ -83,6 +83,36 @@ void buildFaults(Entry& e, const std::vector<RefSite>& sites, const std::vector<
 		f.what = fmt("%s: block %u (%s) ref->%s at file offset %zu: %u -> %u (%s)", e.name.c_str(), s.block, s.blockType.c_str(), s.cls.c_str(), s.pos, s.orig, v, KINDS[k]);
 		e.faults.push_back(f);
 	}
+	// pairs of sibling fields: two reference fields of one block with the same declared target class (entity A / entity B, the two bodies
+	// of a constraint, parent / child of a controller link); one is redirected to another existing block, the other made unresolvable.
+	// Per group: the first two, the last two and one seeded pair, in both orientations.
+	{
+		std::map<std::pair<uint32_t, std::string>, std::vector<size_t>> groups;
+		for (size_t i = 0; i < sites.size(); i++) groups[{sites[i].block, sites[i].cls}].push_back(i);
+		std::vector<Fault> pairs;
+		for (auto& kv : groups) {
+			auto& g = kv.second;
+			if (g.size() < 2) continue;
+			std::vector<std::pair<size_t, size_t>> pr{{g[0], g[1]}, {g[g.size() - 2], g[g.size() - 1]}};
+			if (g.size() > 3) { size_t a = rng.below((uint32_t)g.size()), b = rng.below((uint32_t)g.size()); if (a != b) pr.push_back({g[a], g[b]}); }
+			for (auto& [x, y] : pr)
+				for (int orient = 0; orient < 2; orient++) {
+					const RefSite& red = sites[orient ? y : x];
+					const RefSite& unr = sites[orient ? x : y];
+					uint32_t v1 = valueFor(red, rng.coin() ? 6 : 8, rng);   // an arbitrary existing block / another block of the same type
+					uint32_t v2 = valueFor(unr, rng.coin() ? 0 : 1, rng);   // empty / the block count
+					if (v1 == red.orig) continue;
+					Fault f;
+					f.patches.push_back({red.pos, v1});
+					f.patches.push_back({unr.pos, v2});
+					f.what = e.name + fmt(": sibling pair [block %u (%s) ref->%s @%zu: %u -> %u (redirected)][@%zu: %u -> %u (unresolvable)]", red.block, red.blockType.c_str(), red.cls.c_str(), red.pos, red.orig, v1, unr.pos, unr.orig, v2);
+					pairs.push_back(f);
+				}
+		}
+		for (size_t i = pairs.size(); i > 1; i--) std::swap(pairs[i - 1], pairs[rng.below((uint32_t)i)]);
+		size_t cap = g_cfg.tier ? pairs.size() : std::min<size_t>(pairs.size(), budget / 2);
+		for (size_t i = 0; i < cap; i++) e.faults.push_back(pairs[i]);
+	}
 	for (int m = 0; m < multi && sites.size() >= 2; m++) {
 		Fault f;
 		int n = 2 + (int)rng.below(2);
@@ -181,7 +211,7 @@ void run(size_t idx) {
 
 MonReg reg({"C15", "fault_enumeration",
 			"fault = one reference field (1..3 for multi faults) of an otherwise valid file holds another value. Field offsets come from the BlockRef hook of the traced raw save of the "
-			"file's normal form; values: empty, block count, beyond count, the block itself, its parent, the root, an arbitrary in-range index, 0xFFFFFFFE, another block of the same type (on every field of small strata). Fields are stratified by "
+			"file's normal form; values: empty, block count, beyond count, the block itself, its parent, the root, an arbitrary in-range index, 0xFFFFFFFE, another block of the same type (on every field of small strata); plus pairs of sibling fields of one block (same declared target class): one redirected to an existing block, the other made unresolvable. Fields are stratified by "
 			"(block type, declared target class) so that every stratum receives every kind before a second field of the stratum is visited (quick: ~110 faults per real file, 36 per "
 			"synthesised file of each block type; thorough: 2400 / 400 x 14 versions). Pipeline per fault in a fork-isolated child: Load (must return 0) -> query battery -> copy -> raw save "
 			"-> default save -> reload (must return 0). Oracle: no sanitizer/assertion abort, signal, exception or CPU-limit hang. Non-trivial = fault whose file loaded and ran all phases.",
